@@ -26,7 +26,11 @@ import RuxModel.Go.Bytes
   `formam` (`decodeValues`), `encoding/json` (`decodeJSON`), `encoding/xml` (`decodeXML`), the validator
   (`validator`), `mime.ParseMediaType` (`mclass`), `mime/multipart` (`multipartValues`).
   Assumption: the request has not been parsed before (`r.Form`, `r.PostForm`, `r.MultipartForm` are nil) and
-  `r.Body` is non-nil (net/http guarantees this for server requests).
+  `r.Body` is non-nil (net/http guarantees this for server requests: a request without a body arrives with
+  `r.Body == http.NoBody`).  No function of the package looks at the dynamic type of `r.Body`, compares it
+  with `http.NoBody` or reads `Content-Length`: the body is an `io.Reader`, its BYTES are all that counts
+  (`BodyCarrier.content`).  In particular a POST/PUT/PATCH without a body is still bound from the source its
+  Content-Type names (empty JSON/XML text = decoder error, empty form), never from the URL query.
 
   Core Lean only — this file is linked into the driver executable.
 -/
@@ -231,6 +235,19 @@ inductive MediaClass where
   | other                -- no error, any other media type
   | bad                  -- ParseMediaType returned an error
   deriving DecidableEq, Repr
+
+/-- how `r.Body` delivers the body to a handler -/
+inductive BodyCarrier where
+  /-- any `io.ReadCloser` that yields `content` and then `io.EOF` -/
+  | reader (content : Bytes)
+  /-- `http.NoBody` (server: `Content-Length: 0` / no body; client: `NewRequest(m, url, nil)` or an empty reader) -/
+  | noBody
+  deriving DecidableEq, Repr
+
+/-- what binding reads from `r.Body` -/
+def BodyCarrier.content : BodyCarrier → Bytes
+  | .reader b => b
+  | .noBody => []
 
 structure Request (ε : Type) where
   method : Bytes
